@@ -29,7 +29,7 @@ ASSUMPTIONS = [
     'exact reals',
 ]
 OUTSIDE = ['that accepted particles are distributed correctly', 'AdaptiveDistanceSMC / AdaptiveThresholdSMC',
-           'more batches / proposal retries than the bound (Cut)', 'dimension > 1 in the quick tier']
+           'more batches / proposal retries than the bound (Cut)', 'dimension > 1 for whole runs (two-parameter populations are checked on _compute_weights_means_and_cov only)']
 
 
 class RoundRS(SymRandomState):
@@ -297,6 +297,59 @@ def h_smc_continue(ctx, bs, n, mode, K, max_trials=2, bounded=False):
     ctx.claim('n_sim_counts_this_call', res.n_sim == bs * len(w.consumed))
 
 
+def h_population_two_params(ctx, n, later):
+    """Weights, proposal means and covariance of a population of a TWO-parameter model (t, u), computed by the sampler's own
+    _compute_weights_means_and_cov from a population handed to it: first population (weights 1) or a later one (previous
+    population with arbitrary positive weights and diagonal covariance constructed directly)."""
+    from elfi.methods.results import Sample
+    w = World(ctx, 2, max_batches=1, d_specials=(), bounded_prior=False, extra_param=True)
+    T = [ctx.real('t%d' % i) for i in range(n)]
+    U = [ctx.real('u%d' % i) for i in range(n)]
+    D = [ctx.real('d%d' % i) for i in range(n)]
+    ctx.assume_nonzero_divisors = True
+    with w.env(), patched(smc_env(w)):
+        smc = elfi.SMC(w.model['d'], batch_size=2, seed=w.seed)
+        ctx.claim('parameter_order', list(smc.parameter_names) == ['t', 'u'])
+        if later:
+            pt = [ctx.real('prev_t%d' % i) for i in range(n)]
+            pu = [ctx.real('prev_u%d' % i) for i in range(n)]
+            pw = [ctx.real('prev_w%d' % i, 0, None, lo_open=True) for i in range(n)]
+            cv = [ctx.real('prev_cov%d' % k, 0, None, lo_open=True) for k in range(2)]
+            prev = Sample(method_name='Rejection within SMC-ABC', outputs={'t': ctx.array(pt), 'u': ctx.array(pu), 'd': ctx.array(D)},
+                          parameter_names=['t', 'u'], discrepancy_name='d', weights=ctx.array(pw), threshold=D[-1],
+                          n_batches=0, n_sim=0, seed=w.seed, cov=ctx.array([[cv[0], 0], [0, cv[1]]]))
+            prev.means = ctx.array([[a, b] for a, b in zip(pt, pu)])
+            smc._populations = [prev]
+        # the outputs dict lists u before t: the column order must come from parameter_names
+        pop = Sample(method_name='Rejection within SMC-ABC', outputs={'u': ctx.array(U), 't': ctx.array(T), 'd': ctx.array(D)},
+                     parameter_names=['t', 'u'], discrepancy_name='d', threshold=D[-1], n_batches=1, n_sim=2, seed=w.seed)
+        means, wts, cov = smc._compute_weights_means_and_cov(pop)
+    ctx.claim('shapes', np.shape(means) == (n, 2) and np.shape(wts) == (n,) and np.shape(cov) == (2, 2))
+    ctx.claim('proposal_means_are_the_particles_in_parameter_order',
+              And(*[And(close(means[i][0], T[i]), close(means[i][1], U[i])) for i in range(n)]))
+    wl = list(wts)
+    if not later:
+        ctx.claim('first_population_weights_are_one', And(*[x == 1 for x in wl]))
+    else:
+        W = Sum(pw)
+        for i in range(n):
+            comps = [ctx.apply_uf('MVNPDF2', [T[i], U[i], pt[j], pu[j], cv[0], 0, 0, cv[1]]) for j in range(n)]
+            q = Sum([pw[j] / W * comps[j] for j in range(n)])
+            lp = ctx.apply_uf('LOGPDF_t', [T[i]]) + ctx.apply_uf('LOGPDF_u', [U[i]])
+            if ctx.symbolic:
+                ctx.claim('weight%d_is_joint_prior_over_mixture_of_previous_population' % i, wl[i] == ctx.uf_exp(lp - ctx.uf_log(q)))
+            else:
+                import math
+                ctx.claim('weight%d_is_joint_prior_over_mixture_of_previous_population' % i,
+                          close(wl[i], math.exp(lp - math.log(q)), 1e-6) if q > 0 else True)
+    nondegenerate = Not(Sum(wl) * Sum(wl) == Sum([x * x for x in wl]))
+    for k, col in enumerate((T, U)):
+        ctx.claim('cov_%d%d_is_twice_weighted_variance_of_parameter_%d' % (k, k, k),
+                  Implies(nondegenerate, close(cov[k, k], 2 * wvar_ref(col, wl), 1e-7)),
+                  abstract=[x for x in wl if core.is_sym(x)], hyps=[x > 0 for x in wl if core.is_sym(x)])
+    ctx.claim('cov_is_diagonal', And(close(cov[0, 1], 0), close(cov[1, 0], 0)))
+
+
 def mk(name, **p):
     tiers = p.pop('tiers', ('quick', 'thorough'))
     b = 'batch_size=%d n=%d %s rounds=%d <=%d batches%s%s' % (p['bs'], p['n'], p['mode'], p['rounds'], p['K'],
@@ -324,6 +377,11 @@ HARNESSES = [
       tiers=('thorough',)),
     H('continue_q_bs1_n2_bounded', h_smc_continue, dict(bs=1, n=2, mode='quantiles', K=2, bounded=True), path_timeout=300,
       bounds='existing population, one more round, quantiles, bounded prior, batch_size=1 n=2 2 batches', tiers=('thorough',)),
+    H('population_two_params_first_n3', h_population_two_params, dict(n=3, later=False), path_timeout=300,
+      bounds='2 parameters (t, u), 3 particles, first population: means / weights / covariance'),
+    H('population_two_params_later_n2', h_population_two_params, dict(n=2, later=True), path_timeout=300,
+      bounds='2 parameters, 2 particles, later population: previous population with arbitrary positive weights and diagonal '
+             'covariance constructed directly'),
     mk('thr_bs2_n2_r2_bounded', bs=2, n=2, mode='thresholds', rounds=2, K=2, tiers=('thorough',)),
     mk('q_bs1_n2_r2_bounded', bs=1, n=2, mode='quantiles', rounds=2, K=4, tiers=('thorough',)),
     mk('thr_bs2_n2_r2_K3_unbounded', bs=2, n=2, mode='thresholds', rounds=2, K=3, bounded=False, tiers=('thorough',)),
